@@ -58,9 +58,10 @@ pub fn item(a: usize, i: usize) -> Vec<Stmt> {
         // the divert is written on the choice line: the choice's text runs on into the target (W2b)
         "choice-inline-divert" => vec![Stmt::Weave(Weave {
             choices: vec![
-                // (only the bracketed form `start[only] end -> k` is calibrated: choices/fallback-choice;
-                // for `* text -> k` without brackets there is no reference-compiled example, so it is
-                // not generated)
+                // (bracketed form calibrated by choices/fallback-choice; the plain form `* text -> k` by the
+                // reference JSON of TheIntercept line 713: start text with its trailing space, then
+                // the divert, no line end)
+                Choice { sticky: false, label: None, conds: vec![], start: vec![t("go on")], only: vec![], end: vec![], fallback: false, body: vec![Stmt::InlineDivert(Target::Label(lab("ihop")))] },
                 Choice { sticky: false, label: None, conds: vec![], start: vec![t("Hello ")], only: vec![t("there")], end: vec![t("again.")], fallback: false, body: vec![Stmt::InlineDivert(Target::Label(lab("ihop")))] },
                 Choice { sticky: false, label: None, conds: vec![], start: vec![], only: vec![t("just go")], end: vec![], fallback: false, body: vec![Stmt::InlineDivert(Target::Label(lab("ihop")))] },
                 Choice { sticky: true, label: None, conds: vec![], start: vec![t("wait here")], only: vec![], end: vec![], fallback: false, body: vec![Stmt::line("Waited.")] },
@@ -548,6 +549,10 @@ pub fn calibration() -> Vec<(&'static str, Program)> {
                     ],
                 )],
             ),
+        ),
+        (
+            "function/evaluating-function-variablestate-bug.ink.json",
+            prog(vec![], vec![tl("Start"), Stmt::Tunnel("tunnel".into()), tl("End"), end()], vec![knot("tunnel", vec![tl("In tunnel."), Stmt::TunnelReturn])]),
         ),
         (
             "conditional/cycle.ink.json",
